@@ -30,7 +30,7 @@ func init() {
 func runC24(c *engine.Ctx) {
 	r1 := c.Rule("R1", "the network request is sent only after a RemoteMissingBlockErr load result, at most once per execution", 1)
 	r2 := c.Rule("R2", "skip count = max(user value, NBlocksTraversed()); encoded under the do-not-send-first-blocks name; sent to the request's peer", 1)
-	r3 := c.Rule("R3", "each extension the requestor encodes uses the codec package the responder decodes that name with", 2)
+	r3 := c.Rule("R3", "each extension the requestor encodes uses the codec package the responder decodes that name with", 1)
 	r4 := c.Rule("R4", "responder send decision honours skip count and dedup", 1)
 
 	ex := "requestmanager/executor"
@@ -250,6 +250,10 @@ func derivesFromField(v ssa.Value, f *types.Var, depth int) bool {
 		}
 		if lv := engine.LocalValue(x); lv != ssa.Value(x) {
 			return derivesFromField(lv, f, depth-1)
+		}
+		// pointer-typed field dereferenced: *(x.f)
+		if inner, ok := x.X.(*ssa.UnOp); ok {
+			return derivesFromField(inner, f, depth-1)
 		}
 		// load of a local alloc with several stores
 		if al, ok := x.X.(*ssa.Alloc); ok {
